@@ -34,7 +34,8 @@ type sigSpec struct {
 	Signer uint32 `json:"signed_by_peer,omitempty"` // peer index whose private key signs
 	Over   string `json:"over_hash,omitempty"`      // hash tag the signature is made over
 	Trunc  int    `json:"truncated_to,omitempty"`
-	Raw    string `json:"raw_hex,omitempty"` // literal bytes when no key signs
+	Fresh  int    `json:"fresh_signature_no,omitempty"` // n > 0: the n-th further, freshly made (ECDSA is randomised) signature of the same key over the same hash
+	Raw    string `json:"raw_hex,omitempty"`            // literal bytes when no key signs
 	IsRaw  bool   `json:"is_raw,omitempty"`
 }
 
@@ -79,8 +80,8 @@ var (
 	verCache sync.Map // "keyNo/tag/sighex" -> bool
 )
 
-func signCached(keyNo int, tag string) []byte {
-	k := fmt.Sprintf("%d/%s", keyNo, tag)
+func signCached(keyNo int, tag string, fresh int) []byte {
+	k := fmt.Sprintf("%d/%s/%d", keyNo, tag, fresh)
 	if v, ok := sigCache.Load(k); ok {
 		return v.([]byte)
 	}
@@ -123,7 +124,7 @@ func (cs *caseSpec) sigBytes(s sigSpec) []byte {
 	if k < 0 {
 		return nil
 	}
-	b := signCached(k, s.Over)
+	b := signCached(k, s.Over, s.Fresh)
 	if s.Trunc > 0 && s.Trunc < len(b) {
 		b = b[:s.Trunc]
 	}
@@ -250,10 +251,19 @@ func evaluate(cs *caseSpec) (fs []finding, st *evalStats, harnessErr string) {
 		V := map[uint32]bool{}
 		claimed := map[uint32]string{} // index -> role of the message that claims it
 		var commits []*vbft.VerifCommit
+		validSigs := map[uint32]map[string]bool{} // peer -> the different valid signatures it is present with
+		severalSigs := false
 		credit := func(idx uint32, sig []byte, role string) {
 			k := cs.keyNo(idx)
 			if k >= 0 && (verifies(k, tagH(p, false), sig) || verifies(k, tagH(p, true), sig)) {
 				V[idx] = true
+				if validSigs[idx] == nil {
+					validSigs[idx] = map[string]bool{}
+				}
+				validSigs[idx][string(sig)] = true
+				if len(validSigs[idx]) > 1 {
+					severalSigs = true
+				}
 			}
 		}
 		for _, f := range fed {
@@ -331,6 +341,8 @@ func evaluate(cs *caseSpec) (fs []finding, st *evalStats, harnessErr string) {
 		switch {
 		case cause != "":
 			cause = "forged-endorsers-sig:" + cause
+		case severalSigs:
+			cause = "all-signatures-valid:one-peer-present-with-several-fresh-signatures"
 		case proposerClaimed:
 			cause = "all-signatures-valid:proposer-is-also-committer-or-endorser"
 		default:
@@ -819,6 +831,102 @@ func main() {
 			found[i] = &caseFindings{cs, fs}
 		}
 	})
+	// ---- family "restated": the same statement of one peer several times, freshly signed every time
+	nRest := vf.N(2000, 20000)
+	foundRest := make([]*caseFindings, nRest)
+	vf.Parallel(nRest, runtime.NumCPU(), func(i int) {
+		cs, distinct, copies := genRestatedCase(rng.Sub(uint64(1)<<40|uint64(i)), i)
+		fs, st, herr := evaluate(cs)
+		if herr != "" {
+			r.Eval("")
+			r.Inconclusive("harness (restated): " + herr)
+			return
+		}
+		fp := sha256.Sum256([]byte(fmt.Sprintf("%v", *cs)))
+		r.Eval(fmt.Sprintf("%s/%d/%d/%x", cs.Scenario, cs.N, cs.C, fp[:8]))
+		Q := quorum(cs.N)
+		mu.Lock()
+		for k, v := range st.counts {
+			agg["restated/"+k] += int64(v)
+		}
+		agg["scenario_restated"]++
+		agg["restated/mode_"+restateModeOf(cs.Scenario)]++
+		switch {
+		case distinct >= Q:
+			agg["restated/cases_with_a_real_quorum"]++
+			if st.counts["commitDone_true"] > 0 {
+				agg["restated/cases_with_a_real_quorum_declared"]++
+			}
+		case distinct-1+copies >= Q:
+			agg["restated/cases_where_only_multiplicity_reaches_the_quorum"]++
+			if st.counts["commitDone_true"] == 0 {
+				agg["restated/cases_where_only_multiplicity_reaches_the_quorum_not_declared"]++
+			}
+		default:
+			agg["restated/cases_below_quorum_even_with_multiplicity"]++
+		}
+		mu.Unlock()
+		if i < 2 {
+			r.Sample(cs)
+		}
+		if len(fs) > 0 {
+			foundRest[i] = &caseFindings{cs, fs}
+		}
+	})
+	found = append(found, foundRest...)
+	// the signing primitive really is randomised: two signatures of one key over one hash differ
+	if string(signCached(0, "fresh-check", 0)) != string(signCached(0, "fresh-check", 1)) {
+		r.Count("restated/fresh_signatures_differ_bytewise")
+	}
+
+	// ---- node-level half: a real Server's commit declaration (node.go)
+	vbft.VerifSimSetup()
+	nGames := vf.N(1500, 15000)
+	nodeFound := make([]*nodeFinding, nGames)
+	vf.Parallel(nGames, runtime.NumCPU(), func(i int) {
+		var g *nodeGame
+		var f *nodeFinding
+		var herr string
+		if pn := vf.Catch(func() { g, f, herr = playNodeGame(rng.Sub(uint64(2)<<40|uint64(i)), i) }); pn != nil {
+			r.Eval("")
+			r.Count("node/games_aborted_by_panic")
+			if r.Counter("node/games_aborted_by_panic") <= 3 {
+				r.Sample(map[string]interface{}{"node_game": i, "panic": fmt.Sprint(pn)})
+			}
+			return
+		}
+		if herr != "" {
+			r.Eval("")
+			r.Inconclusive("harness (node game): " + herr)
+			return
+		}
+		sealed := len(g.node.Seals) > 0
+		r.Eval(fmt.Sprintf("node/N=%d/self=%d/events=%d/accepted=%d/sealed=%v/restated=%v", g.N, g.self, len(g.trace), len(g.accepted), sealed, g.restated))
+		mu.Lock()
+		for k, v := range g.stats {
+			agg[k] += int64(v)
+		}
+		agg["node/games"]++
+		agg[fmt.Sprintf("node/games_N=%d", g.N)]++
+		mu.Unlock()
+		if i < 2 {
+			r.Sample(map[string]interface{}{"node_game": i, "N": g.N, "node": g.self, "sealed": sealed, "events_in_order": g.trace})
+		}
+		nodeFound[i] = f
+	})
+	nodeKeys := map[string]bool{}
+	for _, f := range nodeFound {
+		if f == nil {
+			continue
+		}
+		keyCount[f.Key]++
+		if nodeKeys[f.Key] { // one full witness per key
+			continue
+		}
+		nodeKeys[f.Key] = true
+		r.Violation(f.Key, f.What, f.Wit)
+	}
+
 	// violations are reported serially in case order; the first case of every key is minimised
 	for _, cf := range found {
 		if cf == nil {
@@ -869,9 +977,31 @@ func main() {
 	r.Require("commit_refused_by_pool_as_duplicate", 50)
 	r.Require("msg_dropped_by_message_level_verification", 50)
 	r.Require("order_shuffled", 100)
+	r.Require("scenario_restated", int64(nRest/2))
+	for _, m := range restateModes {
+		r.Require("restated/mode_"+m, int64(nRest/10))
+	}
+	r.Require("restated/cases_where_only_multiplicity_reaches_the_quorum", int64(nRest/10))
+	r.Require("restated/cases_where_only_multiplicity_reaches_the_quorum_not_declared", 1)
+	r.Require("restated/cases_with_a_real_quorum_declared", int64(nRest/40))
+	r.Require("restated/commitDone_true", int64(nRest/40))
+	r.Require("restated/fresh_signatures_differ_bytewise", 1)
+	r.Require("node/games", int64(nGames*9/10))
+	r.Require("node/declared", int64(nGames/20))
+	r.Require("node/declared_with_exactly_quorum", int64(nGames/100))
+	r.Require("node/not_declared_and_no_signer_quorum_existed", int64(nGames/20))
+	r.Require("node/commit_timer_expired", int64(nGames/20))
+	r.Require("node/commit_timer_expired_with_endorse_quorum_but_no_signer_quorum", int64(nGames/50))
+	r.Require("node/peers_restating_with_fresh_signatures", int64(nGames/20))
+	r.Require("node/own_commits", int64(nGames/20))
+	r.Require("node/deliveries", int64(nGames*3))
+	if r.Counter("node/games_aborted_by_panic")*20 > int64(nGames) {
+		r.Inconclusive("more than 5% of the node games were aborted by a panic inside the hollow server")
+	}
 	r.Require("order_natural", 100)
 	r.Assume("the proposer is credited as a signer of its own proposal even when no message carrying its signature was fed (the export has no way to add a proposal to the pool; in production the node holds the signed proposal before it seals)")
 	r.Assume("a signature counts for proposer p when it verifies over p's block hash or p's empty-block hash, whichever forEmpty flag commitDone returns (lenient reading of 'for that proposal')")
+	r.Assume("node-level half: a SealBlock action queued by the real handlers is the node's declaration of commit consensus; signatures are counted from every message the receive loop accepted, every statement the node broadcast and every signature its block pool held for the sealed proposer (a superset of what the pool holds when it decides), over the sealed proposer's block hash or empty-block hash; the proposer is credited")
 	r.Assume("only messages that pass the message-level check are fed: VerifPool.VerifyCommit for commits (committer signature over the declared hash under the committer's key), the same rule emulated for endorse messages")
 	r.Finish()
 }
